@@ -198,6 +198,18 @@ struct World
   int nown = 3; // owners in use in this execution
   OwnA& a(int o) { return *std::launder(reinterpret_cast<OwnA*>(storeA[a_slot(o)])); }
   OwnB& b() { return *std::launder(reinterpret_cast<OwnB*>(storeB[0])); }
+  // the storage an owner is constructed into is recycled memory: it holds the byte image of
+  // another owner that is alive now (or a non-zero pattern); constructors must not care
+  void recycleA(int o)
+  {
+    for (int k = 0; k < NOWN; k++) {
+      if (k != o && k != 2 && exists[k]) {
+        std::memcpy(storeA[a_slot(o)], storeA[a_slot(k)], sizeof(OwnA));
+        return;
+      }
+    }
+    std::memset(storeA[a_slot(o)], 0x5A, sizeof(OwnA));
+  }
 };
 static std::unique_ptr<World> W;
 
@@ -565,6 +577,7 @@ int main(int argc, char** argv)
             if (it == poolA.end()) {
               return 2;
             }
+            W->recycleA(o);
             new (W->storeA[a_slot(o)]) OwnA(W->sb[s]->register_callback(it->second));
             W->exists[o] = true;
             unreg = W->a(o).is_unregistered();
@@ -613,6 +626,7 @@ int main(int argc, char** argv)
       } else if (op == "omovec") {
         int o = own_idx(a1), o2 = own_idx(a2);
         e.str("o", a1).str("o2", a2);
+        W->recycleA(o2);
         new (W->storeA[a_slot(o2)]) OwnA(std::move(W->a(o)));
         W->exists[o2] = true;
         e.str("out", "ok");
